@@ -89,6 +89,8 @@ type PkgCtx struct {
 	Label       string `json:"label"`
 	HasLabel    bool   `json:"hasLabel"`
 	Flag        bool   `json:"flag"`
+	// NoFlag: the configuration has no "flag" key at all (CEL conditions reading config.flag then cannot be evaluated)
+	NoFlag bool `json:"noFlag,omitempty"`
 	OpenShift   bool   `json:"openShift,omitempty"`
 	KubeVersion string `json:"kubeVersion"`
 	PkgName     string `json:"pkgName"`
